@@ -222,6 +222,46 @@ _PLATFORM_TRUE = {
 }
 
 
+def _is_private(n):
+    return isinstance(n, str) and n.startswith("_") and not n.startswith("__")
+
+
+def member_shapes(trees):
+    """{scope: {member name: digest}} for the module-level and class-level functions and simple assignments of the given
+    {module name: ast.Module}: the digest is the member's code with every private identifier (`_x`) erased, so that a
+    member keeps its digest when it - or another private member it mentions - is renamed."""
+    import hashlib
+
+    def digest(node):
+        n2 = ast.parse(ast.unparse(node)).body[0] if isinstance(node, ast.stmt) else ast.parse(ast.unparse(node), mode="eval").body
+        if isinstance(n2, (ast.FunctionDef, ast.AsyncFunctionDef)):
+            n2.name = "_"
+            if n2.body and isinstance(n2.body[0], ast.Expr) and isinstance(n2.body[0].value, ast.Constant) and isinstance(n2.body[0].value.value, str):
+                n2.body = n2.body[1:] or [ast.Pass()]
+        for x in ast.walk(n2):
+            if isinstance(x, ast.Name) and _is_private(x.id):
+                x.id = "_"
+            elif isinstance(x, ast.Attribute) and _is_private(x.attr):
+                x.attr = "_"
+            elif isinstance(x, (ast.FunctionDef, ast.AsyncFunctionDef)) and _is_private(x.name):
+                x.name = "_"
+        return hashlib.sha1(ast.dump(n2, annotate_fields=False).encode()).hexdigest()[:16]
+
+    def scan(scope, body, out):
+        d = out.setdefault(scope, {})
+        for st in body:
+            if isinstance(st, (ast.FunctionDef, ast.AsyncFunctionDef)):
+                d[st.name] = digest(st)
+            elif isinstance(st, ast.Assign) and len(st.targets) == 1 and isinstance(st.targets[0], ast.Name):
+                d[st.targets[0].id] = digest(st.value)
+            elif isinstance(st, ast.ClassDef) and "." not in scope:
+                scan(scope + "." + st.name, st.body, out)
+    out = {}
+    for name, tree in trees.items():
+        scan(name, tree.body, out)
+    return out
+
+
 class Program:
     def __init__(self, sources):
         self.sources = sources
@@ -233,6 +273,7 @@ class Program:
             if path.startswith("src/waitress/") and path.endswith(".py"):
                 name = path[len("src/waitress/"):-3]
                 self.modules[name] = Module(name, path, src)
+        self._restore_private_names()
         for m in self.modules.values():
             self._index_module(m)
         self._link_classes()
@@ -426,6 +467,56 @@ class Program:
             raise AnalysisError("anchor vanished: function %s" % qual)
         return f
 
+    def _restore_private_names(self):
+        """Private members (functions, methods, class attributes, module globals named `_x`) that were merely RENAMED with
+        respect to the reference tree get their reference names back, everywhere in the package, before anything is
+        indexed: a member of the same scope that the reference tree does not have, with exactly the code (private names
+        erased) of a member the reference tree has and this tree lacks.  Pure renaming; ambiguous cases are left alone."""
+        ref = self.reference_names().get("__shapes__")
+        self.restored_names = {}
+        if not ref:
+            return
+        cur = member_shapes({m.name: m.tree for m in self.modules.values()})
+        ref_names = {n for d in ref.values() for n in d}
+        used = set()
+        for m in self.modules.values():
+            for x in ast.walk(m.tree):
+                if isinstance(x, ast.Name):
+                    used.add(x.id)
+                elif isinstance(x, ast.Attribute):
+                    used.add(x.attr)
+                elif isinstance(x, (ast.FunctionDef, ast.AsyncFunctionDef, ast.ClassDef)):
+                    used.add(x.name)
+                elif isinstance(x, ast.arg):
+                    used.add(x.arg)
+        renames = {}
+        for scope, rd in ref.items():
+            cd = cur.get(scope)
+            if not cd:
+                continue
+            missing = [n for n in rd if n not in cd and _is_private(n) and n not in used]
+            new = [n for n in cd if n not in rd and _is_private(n) and n not in ref_names]
+            for nn in new:
+                cands = [m0 for m0 in missing if rd[m0] == cd[nn]]
+                same = [x for x in new if cd[x] == cd[nn]]
+                if len(cands) == 1 and len(same) == 1 and renames.get(nn, cands[0]) == cands[0] and cands[0] not in renames.values():
+                    renames[nn] = cands[0]
+        if not renames:
+            return
+        for m in self.modules.values():
+            for x in ast.walk(m.tree):
+                if isinstance(x, ast.Name) and x.id in renames:
+                    x.id = renames[x.id]
+                elif isinstance(x, ast.Attribute) and x.attr in renames:
+                    x.attr = renames[x.attr]
+                elif isinstance(x, (ast.FunctionDef, ast.AsyncFunctionDef)) and x.name in renames:
+                    x.name = renames[x.name]
+                elif isinstance(x, ast.alias) and x.name in renames and x.asname is None:
+                    x.name = renames[x.name]
+                elif isinstance(x, ast.keyword) and x.arg in renames:
+                    pass  # a keyword argument names a parameter, not a member
+        self.restored_names = renames
+
     def reference_names(self):
         t = getattr(self, "_refnames", None)
         if t is None:
@@ -490,7 +581,7 @@ class Program:
         if getattr(self, "_normalised", False):
             return
         self._normalised = True
-        from .inline import attributes_from_constant_getattr, thread_exit_flags, drop_self_assignments, loops_from_primed, _fold_constant_tests, split_tuple_assignments, comprehensions_from_append_loops, loops_from_leading_breaks, flags_to_breaks, _attr_alias_candidates, expand_attribute_aliases, inline_new_constants, new_constants, alpha_normalise, expand_condition_locals, inline_new_temps, inlined, loops_from_filtered_generators, loops_from_quantifiers, outline_reference_temps, split_conditional_expressions
+        from .inline import split_named_expressions, attributes_from_constant_getattr, thread_exit_flags, drop_self_assignments, loops_from_primed, _fold_constant_tests, split_tuple_assignments, comprehensions_from_append_loops, loops_from_leading_breaks, flags_to_breaks, _attr_alias_candidates, expand_attribute_aliases, inline_new_constants, new_constants, alpha_normalise, expand_condition_locals, inline_new_temps, inlined, loops_from_filtered_generators, loops_from_quantifiers, outline_reference_temps, split_conditional_expressions
         anchor_names = frozenset(anchor_names)
         self.inline_anchors = anchor_names
 
@@ -526,7 +617,8 @@ class Program:
                         writers.setdefault(n2.attr, set()).add(f2.qual)
         self.normal_form_constants = {"globals": {k: sorted(v) for k, v in gl.items()}, "class_attrs": {k: sorted(v) for k, v in ca.items()}}
         for f in order:
-            nf = inlined(self, f, pred=pred)
+            nf = split_named_expressions(f)
+            nf = inlined(self, nf, pred=pred)
             if getattr(nf, "inlined_from", None):
                 nf = drop_self_assignments(nf)
                 nf = attributes_from_constant_getattr(nf)
